@@ -168,8 +168,16 @@ func (o *OracleC04) OnOut(n *Node, st *Step, out *Out) {
 }
 
 func (o *OracleC04) AfterCall(n *Node, st *Step) {
-	if n.d == nil || st.Panic != nil || st.Op == OpStart || st.Op == OpReset || !n.judged() {
+	if n.d == nil || st.Panic != nil || !n.judged() {
 		return
+	}
+	if st.Op == OpStart || st.Op == OpReset {
+		// cached change-view requests of the new height are replayed inside the
+		// initialisation and can raise the view there: judged as a change from view 0
+		if n.d.ViewNumber == 0 {
+			return
+		}
+		st = &Step{Op: st.Op, PreBI: n.d.BlockIndex, PostBI: n.d.BlockIndex, PreV: 0, PostV: n.d.ViewNumber, Outs: st.Outs, P: st.P, Arg: st.Arg}
 	}
 	if st.PostBI != st.PreBI || st.PostV <= st.PreV {
 		return
